@@ -6,16 +6,18 @@ RESULT_KEYS = ("status", "info.status", "iter", "x", "y", "z", "z_lb", "z_ub", "
                "rho", "delta", "mu", "sigma", "primal_step", "dual_step", "primal_inf", "primal_rel_inf", "dual_inf", "dual_rel_inf",
                "primal_obj", "dual_obj", "duality_gap", "duality_gap_rel", "factor_retires", "reg_limit", "no_primal_update", "no_dual_update")
 
-def fresh_twin_stage(ctx):
+def fresh_twin_stage(ctx, escalate=False):
     """implementation-vs-implementation oracle (no model involved):
        (a) after update(..., reuse_preconditioner=false) the next solve must return EXACTLY what setup(current data); solve returns
        (b) after any update: if the fresh solver reaches SOLVED within a generous budget, so does the updated one."""
     rng = ctx.rng
     N = 30 if ctx.quick() else 300
+    if escalate: N = 150
     hist, fresh, link = [], [], []
     for i in range(N):
-        big = (i % 3 == 0)
-        c = SS.gen_history(rng, "u%d" % i, focus="updates", force_settings=[("max_iter", "60" if big else str(rng.choice([1, 2, 4, 8])))])
+        big = (i % 3 == 0) or escalate
+        c = SS.gen_history(rng, "%s%d" % ("e" if escalate else "u", i), focus="updates", strong=escalate,
+                           force_settings=[("max_iter", "60" if big else str(rng.choice([1, 2, 4, 8])))] + ([("preconditioner_iter", "0")] if escalate and i % 2 else []))
         hist.append(c)
         # walk the ops to find solve ops preceded by an update
         opno = -1; last_reuse = None; seen_update = False
@@ -28,6 +30,19 @@ def fresh_twin_stage(ctx):
                 pb = c.pbs[opno]
                 f = SS.Case("%s_f%d" % (c.name, opno), c.settings, ["CPBITS 64", G.op_setup(pb), G.op_solve()], {1: pb}, c.tags)
                 fresh.append(f); link.append((c, opno, f, last_reuse, big))
+    # second twin: the same history with every update() passing ALL eight blocks (unchanged blocks with their current values):
+    # with the preconditioner reused both solvers must be in identical states in exact arithmetic, so every later result is equal;
+    # a block whose refresh was skipped by the selective update (stale KKT entries, stale caches) shows up as a difference.
+    full = []
+    for c in hist:
+        ops2 = []; opno = -1
+        for op in c.ops:
+            if op.startswith("CPBITS"): ops2.append(op); continue
+            opno += 1
+            if op.startswith("UPDATE") and opno in c.pbs:
+                ops2.append(G.op_update(c.pbs[opno], None, reuse=(op.split()[1] == "1")))
+            else: ops2.append(op)
+        full.append(SS.Case(c.name + "_all", c.settings, ops2, c.pbs, c.tags))
     builds = vlib.build_many(ctx, [spine.build_impl(ctx, b, "ruiz") for b in spine.ALL_BACKENDS])
     import os
     hf = os.path.join(ctx.work, "c04_hist.cases"); ff = os.path.join(ctx.work, "c04_fresh.cases")
@@ -40,6 +55,18 @@ def fresh_twin_stage(ctx):
         if rc1 or rc2:
             ctx.ob("oracle:fresh-twin:%s" % b, "oracle", False, "driver rc %d %d %s %s" % (rc1, rc2, o1[-300:], o2[-300:])); continue
         H, F = vlib.parse_obs(o1), vlib.parse_obs(o2)
+        af = os.path.join(ctx.work, "c04_all.cases"); open(af, "w").write("".join(c.text() for c in full))
+        rc3, o3 = vlib.run_bin(exe, af)
+        A = vlib.parse_obs(o3) if rc3 == 0 else {}
+        for c in hist:
+            ha = {k: v for k, v in H.get(c.name, []) if k.split(".", 1)[1] in RESULT_KEYS}
+            aa = {k: v for k, v in A.get(c.name + "_all", []) if k.split(".", 1)[1] in RESULT_KEYS}
+            for k in sorted(ha, key=lambda t: (int(t.split(".")[0]), t)):
+                if ha.get(k) != aa.get(k):
+                    ctx.violation("C04.selective-eq-full backend=%s key=%s %s" % (b, k.split(".", 1)[1], " ".join(c.tags)),
+                                  "update(subset) and update(all blocks, same values) leave the solver in different states: %s = %s vs %s" % (k, str(ha.get(k))[:90], str(aa.get(k))[:90]),
+                                  {"history": c.text(), "history_all_blocks": [f.text() for f in full if f.name == c.name + "_all"][0], "backend": b, "key": k})
+                    break
         bad = 0
         for c, opno, f, reuse, big in link:
             ho = {k.split(".", 1)[1]: v for k, v in H.get(c.name, []) if k.startswith("%d." % opno)}
@@ -62,7 +89,12 @@ def fresh_twin_stage(ctx):
     ctx.coverage["evaluations"] = ctx.coverage.get("evaluations", 0) + nchk
     for c in hist: ctx.classes.add("twin " + " ".join(c.tags))
 
+def twin_and_escalate(ctx):
+    fresh_twin_stage(ctx)
+    if any(not o["ok"] for o in ctx.obligations) and not ctx.violations:
+        fresh_twin_stage(ctx, escalate=True)
+
 def run(ctx):
     return run_solver_property(ctx, "C04", codes=("C01", "C04", "C08.absent", "C08.finite", "C15"), focus_mix=("updates", "updates", "mixed"),
                                extra_theorem_files=("Properties_C15.v", "Properties_C13.v", "Properties_C01.v", "Properties_C10.v"),
-                               extra_stage=fresh_twin_stage)
+                               extra_stage=twin_and_escalate)
